@@ -4,7 +4,7 @@ from props import _objcheckout_common as C
 from props import _objcheckout_links as L
 
 PROPERTY = "C05"
-GEN = ["types", "odiff", "relink"]
+GEN = ["types", "odiff", "relink", "objcheckout"]
 RULE = (
     "prior workspaces derived from a cached version by user actions (files edited/replaced with uncached "
     "contents, added, deleted, older cached versions, objects meanwhile collected from the cache, dangling "
